@@ -127,13 +127,17 @@ def run(ctx):
         attempts = 1 if tgt == "metadata" else r["connects"]
         ok_count = (1 if r["resolve_ok"] else 0) if tgt == "metadata" else r["connect_ok"]
         served = srv["requests"] if tgt == "metadata" else r["cql_ok"]
-        if tgt != "metadata" and attempts != len(r["exp_sni"]):
-            raise core.Inconclusive("row %d: %d connection attempts for %d endpoints" % (i + 1, attempts, len(r["exp_sni"])))
-        # SNI: every ClientHello names the node (contact point / host id); for the metadata service the
-        # bundle host when it is a DNS name (an IP literal is never sent as SNI)
-        if r["exp_sni"] and sorted(srv["snis"]) != sorted(r["exp_sni"]):
+        if attempts != r["attempts"]:
+            raise core.Inconclusive("row %d: %d connection attempts, %d planned" % (i + 1, attempts, r["attempts"]))
+        # SNI (the specification's terminal `sni`): every ClientHello names the node - its contact point or its
+        # host id; for the metadata service the bundle host when it is a DNS name (an IP literal is never an SNI)
+        exp_sni = {"contactPoint": r["contact_points"], "hostId": [r["host_id"]],
+                   "bundleHost": [r["bundle_host"]] if host == "dns" else None}[exp["sni"]]
+        if exp_sni is not None and sorted(srv["snis"]) != sorted(exp_sni):
             agg.add("wrong-sni", tgt, "any", host, tls,
-                    "ClientHello SNI %s where %s is expected" % (srv["snis"], r["exp_sni"]), rep)
+                    "ClientHello SNI %s where %s (%s) is expected" % (srv["snis"], exp_sni, exp["sni"]), rep)
+        if exp["accept"] != (exp["clientCert"] == "bundle") or exp["accept"] != exp["appData"]:
+            raise core.Inconclusive("row %d: inconsistent expectation %s" % (i + 1, exp))
         if exp["accept"]:
             n["accept_rows"] += 1
             if ok_count != attempts or served != attempts:
